@@ -255,6 +255,17 @@ theorem hash_iter_exact (e : Endian) (bc : Nat) (groups : List (List Nat)) (ix :
   findByHash_scan e bc groups ix hwf henc hbc hash
 
 open Gimli.Names in
+/-- **The name abbreviation table parses back to the abbreviations it encodes** (ULEB code, ULEB
+tag, `(name, form)` pairs ended by `0 0`; non-zero codes/tags/names/forms that fit their 64/16-bit
+readers), whether or not the table carries the terminating 0 — this is the table
+`NameEntry::parse` resolves entry codes against. -/
+theorem name_abbrevs_exact (abbrevs : List Abbrev) (h : ∀ a, a ∈ abbrevs → a.Ok)
+    (tail : Bytes) (htail : tail = [] ∨ ∃ junk, tail = 0 :: junk) (fuel : Nat)
+    (hf : abbrevs.length < fuel) :
+    parseAbbrevs fuel (encAbbrevs abbrevs ++ tail) = .ok abbrevs :=
+  parseAbbrevs_enc abbrevs h tail htail fuel hf
+
+open Gimli.Names in
 /-- **`name_entries(i)` returns exactly the entries of name `i`.**  If slot `i` of the
 entry-offset array points at a series of entries in the pool — each entry the ULEB abbreviation
 code of an abbreviation that `NameAbbreviations::get` resolves to itself, followed by one value
